@@ -63,6 +63,22 @@ def extra_dd_probe(tier, seed):
     return dict(violations=viol, coverage=dict(dd_probe_scenarios=len(real), dd_probe_rows=real))
 
 
+def extra_lazy_probe(tier, seed):
+    """C16 (and C01): a send future does nothing before its first poll - typed and through every
+    erased route alike.  The model has no step for creating a future: an operation begins at its first
+    poll, so an unpolled future that is dropped delivers nothing and a deferred one is ordered by its
+    first poll."""
+    bins = vlib.build_harness((), bins=("director", "lazy_probe"))
+    real = vlib.sh([bins["lazy_probe"]], timeout=300, check=True).stdout.strip().splitlines()
+    want = "unpolled=[] deferred=[2, 1] raced=[8] oks=111"
+    viol = []
+    bad = [l for l in real if l.split(" ", 1)[1] != want]
+    if bad or len(real) != 8:
+        viol.append(dict(what="a send future acted before its first poll (or the erased route differs from the typed one)",
+                         real=real, expected="<route> " + want, replay_cmd="lazy_probe"))
+    return dict(violations=viol, coverage=dict(lazy_probe_routes=len(real), lazy_probe_rows=real[:3]))
+
+
 def extra_id_stress(tier, seed):
     """C11: ids handed out by concurrent spawns from many OS threads (fresh process): the model's
     id_of_index says the n-th spawn gets id n, so n spawns give exactly 1..n, all distinct; every
@@ -377,7 +393,7 @@ PROPS = {
         props_file="Props/C16.v",
         families=[("core", NONE, 60)],
         projection="C16", monitors=["C04", "C05", "C11"],
-        extra=[extra_erased],
+        extra=[extra_erased, extra_lazy_probe],
         level_text="Translation + proof + correspondence: the table of forwarders and conversions is regenerated from the source on every run and proved verbatim / complete in Coq (Props/C16.v); the same director scripts are run direct and with every operation routed through TellHandler / AskHandler / ActorControl and their weak variants (built via From, Box::new, clone_boxed, downgrade, upgrade, as_control, as_weak_control): observations must be identical and accepted by the model.",
     ),
     "C17": dict(
